@@ -162,6 +162,12 @@ theorem C09_source_error_forwarded (W : World) (s s' : State) (ch e : Nat)
   simp only [step, runMon, hm, Facts.deliverSrcErr] at h
   cases hs : s.skipVerify <;> cases hp : s.P.suppress <;> simp [hs, hp] at h <;> subst h <;> simp
 
+/-- F19a: ez, the library's own user of delayed verification, asks for BOTH options unconditionally (not, e.g., only
+when the file is watched): verification delayed until ez itself enables it, and the global callbacks withheld until
+then - so `C09_suppression_exact` applies to ez's re-stack with the config file in every ez configuration. -/
+theorem C09_ez_asks_for_delay_and_suppression : Facts.ezDelay = true ∧ Facts.ezSuppress = true := by
+  decide
+
 /-- regenerated guards (F5, F6): the suppression expressions of the current source -/
 theorem C09_guard_facts :
     (∀ sv su, Facts.suppressNew sv su = (sv && su)) ∧ (∀ sv su, Facts.deliverSrcErr sv su = !(sv && su)) ∧
